@@ -211,7 +211,7 @@ def visibleIn (mnts : List Kernel.KMnt) (x : Kernel.KMnt) : Bool :=
   | none => false
   | some r => climb mnts.length r
 
-/-- the defect repaired by 05db66c (formerly finding `umount-order-hidden-submount`; the
+/-- the defect repaired by e546b99 (formerly finding `umount-order-hidden-submount`; the
     detection is kept so that a regression is named): the table has a mount at or
     below the build root `bd` that is hidden (covered by a mount stacked later on one of its
     ancestors), and yet an order exists in which every unmount call succeeds (latest mount
